@@ -4,7 +4,8 @@ from seqdiff import run_seq
 
 LEVEL = "translation_validation"
 COQ_TARGETS = ("props/C04.vo",)
-THEOREMS = ["C04_covered_records_not_replayed_partial", "C04_uncovered_records_replayed_partial", "C04_covered_example"]
+THEOREMS = ["C04_covered_records_not_replayed_partial", "C04_uncovered_records_replayed_partial", "C04_covered_example",
+            "C04_reopen_identity_refuted"]
 
 
 def programs(seed, n, nops):
@@ -21,6 +22,38 @@ def programs(seed, n, nops):
         g.op_reopen()
         g.probe()
         out.append(p + "\n".join(g.lines) + "\n")
+    return out
+
+
+def parse_dump(d):
+    out = {}
+    for part in (d or "").split(";"):
+        if "{" in part:
+            name, body = part[:-1].split("{", 1)
+            out[name] = dict(kv.split("=") for kv in body.split(",") if "=" in kv)
+    return out
+
+
+def reopen_identity(prog, obs):
+    """Independent judge on the implementation's own observations: the `dump` right before a `reopen` and the first `dump`
+    after it must be equal.  Returns a list of (reopen line, dump before, dump after)."""
+    lines = prog.splitlines()
+    out = []
+    for i, l in enumerate(lines, 1):
+        if l.strip() != "reopen":
+            continue
+        b = next((j for j in range(i - 1, 0, -1) if lines[j - 1].strip() == "dump"), None)
+        a = next((j for j in range(i + 1, len(lines) + 1) if lines[j - 1].strip() == "dump"), None)
+        if b is None or a is None or b != i - 1:
+            continue
+        # nothing but re-binding handles, the journal count and a drain may lie between the reopen and the second dump
+        if any(lines[j - 1].split()[0] not in ("ks", "journals", "drain", "names") for j in range(i + 1, a)):
+            continue
+        db_, da_ = obs.get(b), obs.get(a)
+        if db_ is None or da_ is None or not obs.get(i, "").startswith("ok"):
+            continue
+        if parse_dump(db_) != parse_dump(da_):
+            out.append((i, db_, da_))
     return out
 
 
@@ -97,7 +130,8 @@ def run(rep, tier, seed, build):
     for msg, prog in sj[:1]:
         rep.violation("# C04: %s\n%s" % (msg, prog))
     n, nops = (240, 40) if tier == "quick" else (5000, 100)
-    progs = programs(seed, n, nops)
+    from seqprop import corpus
+    progs = corpus("C04") + programs(seed, n, nops)
     res = run_seq(rep, progs)
     races = [(m, w, pre) for m in ("plain", "sw", "occ") for w in ("put", "put_same", "del", "batch", "tx", "other")
              for pre in ("mem", "flushed") if not (m == "plain" and w == "tx")]
@@ -106,8 +140,26 @@ def run(rep, tier, seed, build):
     rr, unconf = pmap_confirm(ingest_race, races, lambda x: bool(x["problems"]), workers=8)
     for x in [x for x in rr if x["problems"]][:2]:
         rep.violation("# C04: writer racing with a bulk ingestion that holds the journal lock: %s\n%s" % (x["problems"][0], x["prog"]))
+    # the property itself, judged without the model: content before close = content after reopen
+    from common import known_switch
+    mon, known_hits = 0, 0
+    f17 = known_switch("C04", "remove_verdict_reopen")
+    for ev in res["results"]:
+        for (ln, before, after) in reopen_identity(ev["prog"], ev["impl"]):
+            mon += 1
+            pb, pa = parse_dump(before), parse_dump(after)
+            # known finding E17 (second face): keys that were deleted come back — and only that — while the implementation
+            # agrees with the faithful model on the whole program (the model's replay has the same non-monotone watermark)
+            only_resurrection = all(set(pb.get(n, {}).items()) <= set(pa.get(n, {}).items()) for n in set(pb) | set(pa)) and \
+                set(pb) == set(pa)
+            if f17 and only_resurrection and ev["d_corr"] is None and ("!" in ev["prog"] or "filters=" in ev["prog"]):
+                known_hits += 1
+                rep.known_finding("remove_verdict_reopen (%s): %s" % (f17["id"], f17["what"]))
+            elif len(rep.violations) < 3:
+                rep.violation("# C04: the content changes across the reopen at line %d\n# before close: %s\n# after reopen:  %s\n%s"
+                              % (ln, before[:600], after[:600], ev["prog"]))
     st = res["stats"]
-    rep.coverage = dict(programs=st["programs"], disagreements_checked=st["disagreements_checked"],
+    rep.coverage = dict(reopen_identity_mismatches=mon, known_finding_hits=known_hits, programs=st["programs"], disagreements_checked=st["disagreements_checked"],
                         evaluations=st["ops"], distinct_nontrivial=res["distinct"],
                         rule="generated histories with 1-5 reopen cycles (a tenth of them with 66 MiB fills that seal the journal: eviction "
                              "watermarks, sealed-journal recovery, `journals` compared with the model), ingestion into empty and non-empty keyspaces over "
